@@ -11,6 +11,18 @@ CHECKS = {
          "Random straight-line programs over the whole frontend.API are compiled with both builders under several compression thresholds and const/public/secret labellings, solved, and compared with an independent big-integer interpreter written from the API documentation; a wrong claimed output must be rejected. Exploration, not proof: assurance is 'no divergence in N generated programs per field', N in the evidence file.",
          "Trusts the reference interpreter (lib/prog/eval.go) as the documented meaning; divisors that fold to the compile-time constant 0 are excluded (documented programmer error) and counted.",
          "DESIGN.md §3 C04"),
+ "C01": ("property-based metamorphic + adversarial-prover testing (rapid, verif hook)",
+         "Random provable circuits (0-3 commitments) on all 7 curves are proved for real; the genuine (proof, public witness) pair is then edited (public inputs, every group element, commitment list incl. the forged surplus commitment, re-decoded bytes) or re-produced by the real prover continued on a row-violating assignment injected through the verif hook; Verify must reject every variant, and accept the genuine pair. Exploration: finds logic holes (missing check, wrong binding, forgotten row), says nothing about hardness assumptions.",
+         "Rejection oracle is sound up to negligible-probability coincidences; CommitmentPok of commitment-free proofs is not counted as a proof element; the dishonest prover needs the verif-tagged post-solve hook.",
+         "DESIGN.md §3 C01"),
+ "C02": ("property-based metamorphic + adversarial-prover testing; reference model of the verifying key with a known toxic value (rapid)",
+         "A: as C01 for PLONK (public inputs, all commitments / openings / claimed values, BSB22 and claimed-value lists, consistent hash options, dishonest prover violating a gate, a copy constraint, a padding position or a public row). B: with an SRS of known tau every digest of the verifying key is compared with [P(tau)]G1 for selector and permutation polynomials rebuilt independently from the exported gates, and the exported permutation's cycle partition must equal the wire partition.",
+         "A: as C01. B: trusts the harness's reconstruction of the documented trace layout (placeholders, padding = wire 0); equality of digests at a single known tau (error probability n/p).",
+         "DESIGN.md §3 C02"),
+ "C13": ("property-based reference testing + hint adversary (rapid, exhaustive sweep on F47)",
+         "Range checks (widths 1..bitlen+2, mixes that move the limb width, commit and bit-decomposition paths) and logderivlookup tables (all index patterns, zero queries) are compared with the integer predicate / table[index] on both builders, the test engine and 7 curves; a hint adversary forges limbs and multiplicities (incl. a two-pass attack that learns the commitment) and must never get an out-of-range value accepted; the shared commitment must contain every gadget's data.",
+         "Lookup results (outputs of a solver instruction, not a hint) are not forged; log-derivative soundness error 1/p ignored (curve fields only for the adversary).",
+         "DESIGN.md §3 C13"),
 }
 
 PENDING = {}
